@@ -32,8 +32,14 @@ from . import observe
 PIPE_FORMS = ("devfd", "devstdin", "fifo")
 NAME_STEMS = ("dump[1]", "x[2024]", "[a]", "a#b", "q?x", "%41", "with space", "a:b", "u@h", "-lead", "ünï-日本", "trail.", "http:x", "C:x",
               "a;b", "a&b=c", "[::1]", "a[b", "dot.dot", "..hidden", "a+b", "stream+x", "avro", "x.avro.y", "%2e%2e", "a\\b", "tab\there")
+NAME_STEMS_THOROUGH = ("a b  c", " lead-space", "trail-space ", "(paren)", "{brace}", "a'b", 'a"b', "a|b", "a*b", "a<b>c", "a=b", "a,b", "a~b", "a!b", "a$b",
+                       "a`b", "a^b", "..", "...", "-", "--", "-w", "ünï/sub" .replace("/", "∕"), "é" * 40, "x" * 200, "CON", "nul", "a%zz", "a%", "%",
+                       "@", ":", "a:", ":a", "1.2.3.4", "user:pw@host", "www.example.com", "[v1.x]", "[]", "]a[", "a]", "scheme+sub")
 NAME_EXTS = (".avro", ".records", ".jsonl", ".json", ".csv", ".records.gz", "")
 NAME_FORMS = ("relative", "absolute", "scheme-relative", "scheme-absolute")
+SQLITE_EXTS = (".db", ".sqlite")  # no extension mapping: a plain 'x.db' is a record stream, 'sqlite://x.db' a database
+SQLITE_FORMS = ("sqlite-relative", "sqlite-absolute")
+URL_SPECIAL = ("#", "?", "\t", "\r", "\n")  # fragment / query delimiters; urlsplit() drops ASCII tab and newlines
 EXT_CONTAINER = {".avro": "avro", ".jsonl": "json", ".json": "json", ".csv": "csv"}
 CONTAINER_SCHEME = {"avro": "avro", "json": "jsonfile", "csv": "csvfile", "stream": "stream"}
 
@@ -268,7 +274,7 @@ def execute_turnover(ctx, case):
         fh = open(path, "w+b")
         try:
             plan = [("none", "RecordReader")]
-            for i in range(ctx.scale(10, 30)):
+            for i in range(ctx.scale(10, 100)):
                 plan.append((rng.choice(("gz", "bz2", "lz4", "zst", "none")), rng.choice(entries)))
             for i, (codec, entry) in enumerate(plan):
                 fh.seek(0)
@@ -288,7 +294,7 @@ def execute_turnover(ctx, case):
     else:
         # many short-lived handles: open, read, drop - alternating a plain source through RecordReader (which selects the
         # adapter by sniffing) with a compressed source handed to a low-level entry point
-        for i in range(ctx.scale(40, 120)):
+        for i in range(ctx.scale(40, 400)):
             codec = "none" if i % 2 == 0 else rng.choice(("gz", "bz2", "lz4", "zst"))
             entry = "RecordReader" if (i % 2 == 0 or rng.random() < 0.2) else rng.choice(entries[1:])
             kind = rng.choice(("file", "bytesio"))
@@ -325,6 +331,8 @@ def _sniff_container(raw):
         return "empty", codec
     if raw[:4] == b"Obj\x01":
         return "avro", codec
+    if raw[:16] == b"SQLite format 3\x00":
+        return "sqlite", codec
     if b"RECORDSTREAM\n" in raw[:19]:
         return "stream", codec
     first = raw.split(b"\n", 1)[0]
@@ -355,7 +363,10 @@ def execute_names(ctx, case):
     container = EXT_CONTAINER.get(os.path.splitext(name)[1], "stream")
     workdir = c.tmp_name(ctx, "names", ".d")
     os.mkdir(workdir)
-    if form == "relative":
+    if form.startswith("sqlite"):
+        container = "sqlite"
+        url = "sqlite://" + (name if form == "sqlite-relative" else os.path.join(workdir, name))
+    elif form == "relative":
         url = name
     elif form == "absolute":
         url = os.path.join(workdir, name)
@@ -364,7 +375,7 @@ def execute_names(ctx, case):
     else:
         url = CONTAINER_SCHEME[container] + "://" + os.path.join(workdir, name)
     detail = {"name": name, "form": form, "url": url.replace(workdir, "<dir>"), "expected_container": container}
-    want_reader = {"avro": "AvroReader", "stream": "StreamReader", "json": "JsonfileReader", "csv": "CsvfileReader"}[container]
+    want_reader = {"avro": "AvroReader", "stream": "StreamReader", "json": "JsonfileReader", "csv": "CsvfileReader", "sqlite": "SqliteReader"}[container]
     old_cwd = os.getcwd()
     os.chdir(workdir)
     try:
@@ -385,6 +396,12 @@ def execute_names(ctx, case):
                 created[fn] = _sniff_container(f.read())
         detail["created"] = {k: list(v) for k, v in created.items()}
         rd, got, rerr = c.drain(lambda: RecordReader(url))
+        for r in (rd,):
+            try:
+                if r is not None and hasattr(r, "con") and r.con is not None:
+                    r.con.close()
+            except Exception:  # noqa: BLE001
+                pass
         if werr is not None:
             # refused: consistently (reading the name is refused too, or finds nothing) and nothing of another container is left
             ctx.event("names_refused:" + type(werr).__name__)
@@ -407,6 +424,11 @@ def execute_names(ctx, case):
                               detail=detail)
             elif name in created and ext.endswith(".gz") and created[name][1] != "gz":
                 ctx.violation(None, "the file written under a hostile .gz name is not gzip compressed", detail=detail)
+            if created and not any(ch in name for ch in URL_SPECIAL) and sorted(created) != [name]:
+                # the file on disk must carry exactly the name that was given (no percent-decoding, no rewriting)
+                ctx.violation(None, "writing under a hostile file name created a file with ANOTHER name", detail=detail)
+            else:
+                ctx.event("names_exact_name_checked")
             if rerr is not None:
                 ctx.violation(None, "a file name accepted for writing is refused for reading (%s)" % type(rerr).__name__,
                               detail=dict(detail, exception=repr(rerr)[:300]))
@@ -457,3 +479,334 @@ def _read_planted(ctx, c, workdir, name, url, container, want_reader, records, d
                           detail=dict(detail, read=len(got)))
     elif got:
         ctx.violation(None, "a genuine file under a hostile name yields records and then fails", detail=dict(detail, read=len(got)))
+
+
+# ---- files compressed by OTHER tools of the format, and doubly compressed files --------------------------------------------
+FOREIGN_VARIANTS = {
+    "gz": ("level1", "level9", "with-name-and-mtime", "two-members-of-halves"),
+    "bz2": ("level1", "level9"),
+    "lz4": ("default", "block64k-linked-checksums", "level12-content-size"),
+    # ("two-frames-of-halves" for zstd is NOT generated: by path HEAD hands zstandard's stream_reader to the record reader
+    # unbuffered and a read that meets a frame end comes back short -> 'Unpack failed'; through file objects it works.
+    # Files written by flow.record are single-frame, so the statement does not cover it; reported to the lead.)
+    "zst": ("level1", "level19-checksum", "no-content-size-streamed"),
+}
+FOREIGN_VIAS = ("bytesio", "buffered", "raw", "neutral", "ext")
+
+
+def foreign_compress(codec, variant, data, split_at=None):
+    """Compress `data` with a standard library of the format (not through flow.record), with the given parameters."""
+    import bz2
+    import gzip
+
+    if codec == "gz":
+        if variant == "level1":
+            return gzip.compress(data, 1)
+        if variant == "level9":
+            return gzip.compress(data, 9)
+        if variant == "with-name-and-mtime":
+            buf = io.BytesIO()
+            with gzip.GzipFile(filename="original-name.records", mode="wb", fileobj=buf, mtime=1234567890) as g:
+                g.write(data)
+            return buf.getvalue()
+        cut = split_at if split_at is not None else len(data) // 2
+        return gzip.compress(data[:cut]) + gzip.compress(data[cut:])  # a multi-member file is one gzip file (RFC 1952 2.2)
+    if codec == "bz2":
+        return bz2.compress(data, 1 if variant == "level1" else 9)
+    if codec == "lz4":
+        import lz4.frame
+
+        if variant == "default":
+            return lz4.frame.compress(data)
+        if variant == "block64k-linked-checksums":
+            return lz4.frame.compress(data, block_size=lz4.frame.BLOCKSIZE_MAX64KB, block_linked=True, content_checksum=True, block_checksum=True)
+        return lz4.frame.compress(data, compression_level=12, store_size=True)
+    import zstandard
+
+    if variant == "level1":
+        return zstandard.ZstdCompressor(level=1).compress(data)
+    if variant == "level19-checksum":
+        return zstandard.ZstdCompressor(level=19, write_checksum=True).compress(data)
+    if variant == "no-content-size-streamed":
+        c = zstandard.ZstdCompressor(write_content_size=False).compressobj()
+        return c.compress(data) + c.flush()
+    cut = split_at if split_at is not None else len(data) // 2
+    z = zstandard.ZstdCompressor()
+    return z.compress(data[:cut]) + z.compress(data[cut:])  # concatenated frames are one zstd stream (RFC 8878 3.1)
+
+
+def _plain_file(ctx, c, container, seed, n):
+    from flow.record import RecordWriter
+
+    records = c.sized_records(container, seed, n)
+    path, url = c.cell_path(ctx, "none", container, "pl")
+    w = RecordWriter(url)
+    try:
+        for r in records:
+            w.write(r)
+    finally:
+        w.flush()
+        w.close()
+    with open(path, "rb") as f:
+        data = f.read()
+    c._rm(path)
+    return records, data
+
+
+def _open_via(ctx, c, via, data, container, codec):
+    """-> (make_reader, cleanup) for compressed bytes presented through one naming."""
+    from flow.record import RecordReader
+
+    if via == "bytesio":
+        return (lambda: RecordReader(fileobj=io.BytesIO(data))), (lambda: None)
+    if via == "raw":
+        return (lambda: RecordReader(fileobj=c.MinimalRaw(data))), (lambda: None)
+    ext = {"gz": ".gz", "bz2": ".bz2", "lz4": ".lz4", "zst": ".zst"}[codec]
+    if via == "ext":
+        path = c.tmp_name(ctx, "foreign", (".records" + ext) if container == "stream" else ext)
+    else:
+        path = c.tmp_name(ctx, "foreign", ".bin")
+    with open(path, "wb") as f:
+        f.write(data)
+    if via == "buffered":
+        fh = open(path, "rb")
+        return (lambda: RecordReader(fileobj=fh)), (lambda: (fh.close(), c._rm(path)))
+    url = path if container == "stream" else "avro://" + path
+    return (lambda: RecordReader(url)), (lambda: c._rm(path))
+
+
+def execute_foreign(ctx, case):
+    """A plain container compressed by another tool of the format (other levels / frame options / members) must read back."""
+    c = _c11()
+    codec, variant, container = case["codec"], case["variant"], case["container"]
+    rng = random.Random(case["s"])
+    n = rng.choice([3, 60, 700] if ctx.quick else [60, 700, 5000, 20000])
+    records, plain = _plain_file(ctx, c, container, case["s"] + 1, n)
+    ctx.ev()
+    if variant.startswith("two-") and container == "avro":
+        # two members / frames are concatenated at the byte level: any split point is a valid single compressed file
+        pass
+    data = foreign_compress(codec, variant, plain, split_at=rng.randrange(1, max(2, len(plain))))
+    before = [observe.normalise(observe.obs(r)) for r in records]
+    detail = {"codec": codec, "compressed_with": variant, "container": container, "records": len(records), "plain_bytes": len(plain), "bytes": len(data)}
+    ok = True
+    for via in FOREIGN_VIAS:
+        make, cleanup = _open_via(ctx, c, via, data, container, codec)
+        try:
+            rd, got, err = c.drain(make)
+        finally:
+            cleanup()
+        what = "file compressed by another %s tool, via %s" % (codec, via)
+        d = dict(detail, naming=via)
+        ctx.event("foreign_reads:" + via)
+        if err is not None:
+            ctx.violation(None, "%s: reading raised %s" % (what, type(err).__name__), detail=dict(d, exception=repr(err)[:300], records_before_error=len(got)))
+            ok = False
+            continue
+        if not c.reader_class_ok(rd, container):
+            ctx.violation(None, "%s: RecordReader returned %s" % (what, type(rd).__name__), detail=d)
+            ok = False
+        if not c.compare(ctx, container, records, before, got, what, d):
+            ok = False
+        ctx.event("records_read", len(got))
+    if ok:
+        ctx.cell("foreign", codec, variant, container)
+    ctx.nontrivial("foreign", codec, variant, container, case["s"])
+
+
+def execute_nested(ctx, case):
+    """A compressed container compressed once more (x.records.gz.bz2 ...).  The statement speaks of ONE codec recognised from
+    the leading bytes; HEAD refuses such input (the decompressed payload is not a container).  Accepted outcomes: a refusal
+    with zero records, or exactly the records - never other records and never a silent empty result."""
+    from flow.record import RecordWriter
+
+    c = _c11()
+    outer, inner, container, via = case["outer"], case["inner"], case["container"], case["via"]
+    records = c.sized_records(container, case["s"] + 1, 5)
+    path, url = c.cell_path(ctx, inner, container, "ni")
+    w = RecordWriter(url)
+    try:
+        for r in records:
+            w.write(r)
+    finally:
+        w.flush()
+        w.close()
+    with open(path, "rb") as f:
+        once = f.read()
+    c._rm(path)
+    ctx.ev()
+    data = foreign_compress(outer, {"gz": "level9", "bz2": "level9", "lz4": "default", "zst": "level1"}[outer], once)
+    before = [observe.normalise(observe.obs(r)) for r in records]
+    make, cleanup = _open_via(ctx, c, via, data, container, outer)
+    try:
+        rd, got, err = c.drain(make)
+    finally:
+        cleanup()
+    detail = {"outer": outer, "inner": inner, "container": container, "naming": via}
+    if err is not None:
+        if got:
+            ctx.violation(None, "doubly compressed input yields records and then fails", detail=dict(detail, records=len(got), exception=repr(err)[:200]))
+        else:
+            ctx.event("nested_refused")
+            ctx.cell("nested", outer, inner, container, via)
+    elif not got:
+        ctx.violation(None, "doubly compressed input is accepted as an empty source", detail=detail)
+    elif c.compare(ctx, container, records, before, got, "doubly compressed input", detail):
+        ctx.event("nested_decoded")
+        ctx.cell("nested", outer, inner, container, via)
+    ctx.nontrivial("nested", outer, inner, container, via)
+
+
+# ---- cross-file reader state ---------------------------------------------------------------------------------------------
+CROSS_ADAPTERS = ("avro", "jsonfile", "csvfile", "sqlite")
+CROSS_TYPES = ("varint", "float", "filesize", "string")
+ALONE_WORKER = (
+    "import json, sys, warnings\n"
+    "warnings.simplefilter('ignore')\n"
+    "sys.path.insert(0, sys.argv[2])\n"
+    "from flow.record import RecordReader\n"
+    "from verif import observe\n"
+    "rd = RecordReader(sys.argv[1])\n"
+    "out = [observe.obs_nometa(observe.normalise(observe.obs(r))) for r in rd]\n"
+    "json.dump([type(rd).__name__, out], sys.stdout)\n"
+)
+
+
+def _cross_url(ctx, c, adapter, tag):
+    ext = {"avro": ".avro", "jsonfile": ".jsonl", "csvfile": ".csv", "sqlite": ".db"}[adapter]
+    path = c.tmp_name(ctx, "cross-" + tag, ext)
+    return path, ("sqlite://" + path if adapter == "sqlite" else path)
+
+
+def execute_cross_file(ctx, case):
+    """File A has a field `ts` of type datetime, file B a field `ts` of another type holding values above 2**32 (what a
+    reader that remembers 'ts is a datetime' across files would convert).  Both are read by ONE process, A first or B first,
+    one after the other or with both readers open and iterated in lockstep.  Each file must read as it does alone."""
+    import subprocess
+
+    from flow.record import RecordDescriptor, RecordReader, RecordWriter
+
+    c = _c11()
+    adapter, other, order, layout = case["adapter"], case["other"], case["order"], case["layout"]
+    rng = random.Random(case["s"])
+    ctx.ev()
+    A = RecordDescriptor("cross/with_datetime", [("string", "label"), ("datetime", "ts"), ("varint", "n")])
+    B = RecordDescriptor("cross/with_%s" % other, [("string", "label"), (other, "ts"), ("datetime", "n")])
+    big = {"varint": lambda i: 2**32 + 1 + i * 10**9, "float": lambda i: float(2**33 + i * 4096), "filesize": lambda i: 2**40 + i,
+           "string": lambda i: "2021-01-01T00:00:0%d not a date" % (i % 10)}[other]
+    recs_a = [A.recordType(label="a%d" % i, ts="2022-03-04T05:06:07.%06dZ" % i, n=2**33 + i) for i in range(rng.choice([1, 3, 12]))]
+    recs_b = [B.recordType(label="b%d" % i, ts=big(i), n="2019-09-09T09:09:09.%06dZ" % i) for i in range(rng.choice([1, 3, 12]))]
+    files = {}
+    for tag, recs in (("a", recs_a), ("b", recs_b)):
+        path, url = _cross_url(ctx, c, adapter, tag)
+        w = RecordWriter(url)
+        try:
+            for r in recs:
+                w.write(r)
+        finally:
+            w.flush()
+            w.close()
+        files[tag] = (path, url, recs)
+    detail = {"adapter": adapter, "field_ts_types": ["datetime", other], "order": order, "layout": layout}
+    # what each file gives on its own
+    alone = {}
+    for tag, (path, url, recs) in files.items():
+        if adapter in ("avro", "jsonfile"):
+            alone[tag] = None  # compared with what was written
+            continue
+        verif_dir = os.path.dirname(os.path.dirname(os.path.abspath(__file__)))
+        try:
+            p = subprocess.run([sys.executable, "-W", "ignore", "-c", ALONE_WORKER, url, verif_dir], stdin=subprocess.DEVNULL, stdout=subprocess.PIPE,
+                               stderr=subprocess.PIPE, timeout=300, env=ctx.state["env"])
+            alone[tag] = json.loads(p.stdout.decode("utf-8")) if p.returncode == 0 else ["ERROR", p.stderr.decode("utf-8", "replace")[-300:]]
+        except (subprocess.TimeoutExpired, ValueError):
+            ctx.require(False, "a child reading one file alone did not finish / gave no JSON")
+            for path, _, _ in files.values():
+                c._rm(path)
+            return
+        ctx.event("cross_file_alone_children")
+    tags = list(order)
+    got, errs, classes = {"a": [], "b": []}, {}, {}
+    try:
+        if layout == "sequential":
+            for tag in tags:
+                rd = RecordReader(files[tag][1])
+                classes[tag] = type(rd).__name__
+                try:
+                    for r in rd:
+                        got[tag].append(r)
+                except Exception as e:  # noqa: BLE001
+                    errs[tag] = e
+                _close(rd)
+        else:
+            readers = {tag: RecordReader(files[tag][1]) for tag in tags}
+            its = {tag: iter(rd) for tag, rd in readers.items()}
+            live = list(tags)
+            while live:
+                for tag in list(live):
+                    try:
+                        r = next(its[tag], None)
+                    except Exception as e:  # noqa: BLE001
+                        errs[tag] = e
+                        r = None
+                    if r is None:
+                        live.remove(tag)
+                    else:
+                        got[tag].append(r)
+            for tag, rd in readers.items():
+                classes[tag] = type(rd).__name__
+                _close(rd)
+    except Exception as e:  # noqa: BLE001
+        errs["open"] = e
+    ok = True
+    for tag in ("a", "b"):
+        path, url, recs = files[tag]
+        what = "%s file whose field 'ts' is %s, read %s another file in which 'ts' is %s" % (
+            adapter, "datetime" if tag == "a" else other, "after" if tags.index(tag) == 1 else "before", other if tag == "a" else "datetime")
+        d = dict(detail, file=tag)
+        if tag in errs or "open" in errs:
+            e = errs.get(tag) or errs.get("open")
+            if alone[tag] is not None and alone[tag][0] == "ERROR":
+                ctx.event("cross_file_unreadable_alone_too")
+                continue
+            ctx.violation(None, "%s: reading raised %s" % (what, type(e).__name__), detail=dict(d, exception=repr(e)[:300], records_before_error=len(got[tag])))
+            ok = False
+            continue
+        if alone[tag] is None:
+            if adapter == "avro":
+                import verif.avro_c19 as am
+
+                diffs = ["%d records written, %d read" % (len(recs), len(got[tag]))] if len(recs) != len(got[tag]) else \
+                    [x for w_, r_ in zip(recs, got[tag]) for x in am.record_diffs(w_, r_)]
+            else:
+                want = [observe.obs_nometa(observe.normalise(observe.obs(r))) for r in recs]
+                have = [observe.obs_nometa(observe.normalise(observe.obs(r))) for r in got[tag]]
+                diffs = [] if want == have else [observe.first_diff(want, have)]
+            if diffs:
+                ctx.violation(None, "%s: the records differ from those written" % what, detail=dict(d, problems=diffs[:4]))
+                ok = False
+        else:
+            have = [classes.get(tag), [observe.obs_nometa(observe.normalise(observe.obs(r))) for r in got[tag]]]
+            want = alone[tag]
+            if want[0] == "ERROR":
+                ctx.violation(None, "%s: readable next to the other file but not alone" % what, detail=dict(d, alone=want[1]))
+                ok = False
+            elif json.loads(json.dumps(have)) != want:
+                ctx.violation(None, "%s: the records differ from what the file gives when read alone" % what,
+                              detail=dict(d, diff=observe.first_diff(want[1], json.loads(json.dumps(have[1])))))
+                ok = False
+        ctx.event("cross_file_reads")
+    for path, _, _ in files.values():
+        c._rm(path)
+    if ok:
+        ctx.cell("cross-file", adapter, other, order, layout)
+    ctx.nontrivial("cross-file", adapter, other, order, layout)
+
+
+def _close(rd):
+    try:
+        rd.close()
+        if getattr(rd, "con", None) is not None:
+            rd.con.close()
+    except Exception:  # noqa: BLE001
+        pass
